@@ -5,6 +5,7 @@ import (
 	"io"
 	"log"
 	"os"
+	"path/filepath"
 	"strings"
 	"time"
 
@@ -373,6 +374,7 @@ func histCases(prop, tier string, seed int64) []core.Case {
 		}})
 	}
 	if prop == "C04" {
+		cases = append(cases, core.Case{ID: "ufs-fid-table", Run: runUfsFidTable})
 		for _, dotu := range []bool{false, true} {
 			dotu := dotu
 			cases = append(cases, core.Case{ID: fmt.Sprintf("invalidated-under-a-request/dotu=%v", dotu), Run: func(ctx *core.Ctx) core.Result {
@@ -750,6 +752,100 @@ func runInvalidatedUnder(prop string, dotu bool) core.Result {
 			}
 		}
 		res.Sig(fmt.Sprintf("invalidated-under|%s|%s|%v", wire.TypeName(slow.Type), wire.TypeName(inval.Type), dotu))
+	}
+	return res
+}
+
+// runUfsFidTable: the fid table rules with the bundled Unix file server behind the framework. An implementation takes
+// and gives back references of its own on fids that a request merely mentions (the source fid of a hard-link create,
+// named in the extension): every fid that was bound and not clunked stays valid, keeps its number and its object,
+// and is gone with its Rclunk.
+func runUfsFidTable(ctx *core.Ctx) core.Result {
+	var res core.Result
+	root := filepath.Join(ctx.Scratch, fmt.Sprintf("c04ufs-%d", ctx.Index))
+	_ = os.RemoveAll(root)
+	if err := os.MkdirAll(filepath.Join(root, "d"), 0o755); err != nil {
+		res.Inconclusive = err.Error()
+		return res
+	}
+	defer os.RemoveAll(root)
+	_ = os.WriteFile(filepath.Join(root, "src"), []byte("source file"), 0o644)
+	s := NewUfsSess(root, true, 8192)
+	c := s.Dial()
+	defer c.Hangup()
+	if r, err := c.Version(8192, "9P2000.u", W); err != nil || r.Msg == nil || r.Msg.Type != wire.Rversion {
+		res.Inconclusive = "c04ufs: version failed"
+		return res
+	}
+	tag := uint16(0)
+	rpc := func(m *wire.Msg) *wire.Msg {
+		tag++
+		m.Tag = tag
+		r, err := c.Rpc(m, W)
+		if err != nil || r.Msg == nil {
+			return &wire.Msg{}
+		}
+		return r.Msg
+	}
+	fail := func(sig, what string) {
+		res.Violate("C04;ufs-fid-table;"+sig, what, nil)
+	}
+	if a := rpc(&wire.Msg{Type: wire.Tattach, Fid: 0, Afid: wire.NOFID, Uname: "root", Nuname: 0}); a.Type != wire.Rattach {
+		res.Inconclusive = "c04ufs: attach failed"
+		return res
+	}
+	valid := func(fid uint32, name, when string) {
+		key := "fresh"
+		switch {
+		case strings.Contains(when, "as its source"):
+			key = "named-as-link-source"
+		case strings.Contains(when, "with the extension"):
+			key = "unusable-link-extension"
+		}
+		res.Evals++
+		st := rpc(&wire.Msg{Type: wire.Tstat, Fid: fid})
+		if st.Type != wire.Rstat || st.Stat.Name != name {
+			fail("bound-fid-lost;"+key, fmt.Sprintf("fid %d was bound to %q and never clunked, %s a Tstat on it answers %s", fid, name, when, st.String()))
+		}
+		if w := rpc(&wire.Msg{Type: wire.Twalk, Fid: 0, Newfid: fid}); w.Type != wire.Rerror || w.Ename != "fid already in use" {
+			fail("number-free-while-bound;"+key, fmt.Sprintf("fid number %d is bound, %s a Twalk to it as newfid answers %s", fid, when, w.String()))
+			if w.Type == wire.Rwalk {
+				rpc(&wire.Msg{Type: wire.Tclunk, Fid: fid})
+			}
+		}
+	}
+	for round := 0; round < 4 && len(res.Violations) == 0; round++ {
+		S, D := uint32(10+round*4), uint32(11+round*4)
+		if w := rpc(&wire.Msg{Type: wire.Twalk, Fid: 0, Newfid: S, Wname: []string{"src"}}); w.Type != wire.Rwalk {
+			res.Inconclusive = "c04ufs: walk failed"
+			return res
+		}
+		valid(S, "src", "before any other request mentions it")
+		// requests on another fid that mention S: a hard link whose extension names S (good, and one that fails
+		// because the name exists), and garbage extensions
+		for k, name := range []string{fmt.Sprintf("l%d", round), fmt.Sprintf("l%d", round), "src"} {
+			if w := rpc(&wire.Msg{Type: wire.Twalk, Fid: 0, Newfid: D, Wname: []string{"d"}}); w.Type != wire.Rwalk {
+				continue
+			}
+			cr := rpc(&wire.Msg{Type: wire.Tcreate, Fid: D, Name: name, Perm: 0x01000000 | 0o644, Mode: 0, Ext: fmt.Sprintf("%d", S)})
+			valid(S, "src", fmt.Sprintf("after a hard-link create on another fid named it as its source (attempt %d, answered %s)", k, wire.TypeName(cr.Type)))
+			rpc(&wire.Msg{Type: wire.Tclunk, Fid: D})
+		}
+		for _, ext := range []string{"", "x", "99999", "-1", fmt.Sprintf("%d", D)} {
+			if w := rpc(&wire.Msg{Type: wire.Twalk, Fid: 0, Newfid: D, Wname: []string{"d"}}); w.Type != wire.Rwalk {
+				continue
+			}
+			rpc(&wire.Msg{Type: wire.Tcreate, Fid: D, Name: fmt.Sprintf("bad%d", round), Perm: 0x01000000 | 0o644, Mode: 0, Ext: ext})
+			valid(S, "src", "after a hard-link create with the extension "+ext)
+			rpc(&wire.Msg{Type: wire.Tclunk, Fid: D})
+		}
+		if cl := rpc(&wire.Msg{Type: wire.Tclunk, Fid: S}); cl.Type != wire.Rclunk {
+			fail("clunk-refused", fmt.Sprintf("Tclunk of the bound fid %d answered %s", S, cl.String()))
+		}
+		if st := rpc(&wire.Msg{Type: wire.Tstat, Fid: S}); st.Type != wire.Rerror {
+			fail("valid-after-clunk", fmt.Sprintf("fid %d answers %s after its Rclunk", S, st.String()))
+		}
+		res.Sig(fmt.Sprintf("ufs-fid-table|%d", round))
 	}
 	return res
 }
